@@ -251,6 +251,14 @@ ImportLeftover(r) ==
     LET stale(c) == {x[1] : x \in {y \in cache[c] : \E e \in Visible(indexes) : e[1] = y[1] /\ e[3] # y[2]}}
     IN \A c \in DOMAIN cache : stale(c) \subseteq S(r.pre.jobs.import.upd) \cup S(r.pre.jobs.import.res)
 
+\* after a kill: was every stale cache entry already stale before the kill (the restart only shows what was there)?
+StaleBefore(r) ==
+    HasField(r, "pre") /\ HasField(r, "preVis") /\
+    LET was == CacheOf(r.pre)
+        pv == EntrySet(r.preVis)
+        stale(c) == {x \in cache[c] : \E e \in Visible(indexes) : e[1] = x[1] /\ e[3] # x[2]}
+    IN \A c \in DOMAIN cache : \A x \in stale(c) : c \in DOMAIN was /\ x \in was[c] /\ \E e \in pv : e[1] = x[1] /\ e[3] # x[2]
+
 Props ==
     \/ l = 0
     \/ LET r == Trace[l]
@@ -314,7 +322,7 @@ Props ==
        /\ Chk(GraphWellFormed, r, "C11.GraphWellFormed")
        /\ Chk(\A t \in DOMAIN tags : t \in DOMAIN r.obs.infos /\ r.obs.infos[t].referenced = (tags[t].refBy # {}), r, "C11.ReferencedMirrors")
        \* ---- C16
-       /\ ChkI(ConvFresh, r, "C16.ConvFresh", IF r.ev.a # "CrashRestart" THEN "" ELSE IF ImportLeftover(r) THEN "import-leftover"
+       /\ ChkI(ConvFresh, r, "C16.ConvFresh", IF r.ev.a # "CrashRestart" THEN "" ELSE IF StaleBefore(r) THEN "inherited" ELSE IF ImportLeftover(r) THEN "import-leftover"
                                                 ELSE IF StaleWerePending(r) THEN "pending" ELSE "")
        /\ Chk(~flags.conv => ConvFresh, r, "C16.ConvFreshAtRest")
        /\ Chk(ConvEventually, r, "C16.ConvEventually")
